@@ -23,7 +23,8 @@ for m in muts:
     finally:
         open(path,'w').write(src)
     out[m['id']]={'note':m['note'],'killed':all(v['exit']==1 for v in res.values()),'runs':res}
-json.dump(out,open(f'/verif/scratch/reports/mutants_{prop}_result.json','w'),indent=1)
+tag=os.environ.get('MUT_TAG','')
+json.dump(out,open(f'/verif/scratch/reports/mutants_{prop}_result{tag}.json','w'),indent=1)
 for root,_,files in os.walk(f'/verif/replays/{prop}'):
     for f in files:
         if f.startswith('new-'): os.remove(os.path.join(root,f))
